@@ -47,7 +47,7 @@ package fsm
 //@   ensures [C12.euk.form] err == nil ==> encodedAt(dst.sdata, old(dst.slen), 1, keyBytes) && dst.slen == old(dst.slen) + 5 + len(keyBytes)
 //@   ensures [C12.euk.keep] forall i int :: 0 <= i && i < old(dst.slen) ==> dst.sdata[i] == old(dst.sdata[i])
 //@   ensures [C12.euk.val]  err == nil && old(dst.slen) == 0 ==> seqBytes(dst.sdata, 0, dst.slen) == encK(1, bytesOf(keyBytes))
-//@   modifies dst.sdata, dst.slen
+//@   modifies dst.sdata, dst.slen, dst.nmsg, dst.msg
 
 //@ func mustEncodeKey
 //@   maypanic
